@@ -22,6 +22,10 @@ def ast_casadi(e, sym):
         return ca.MX(float(Fraction(e[1])))
     if t == "v":
         return sym[e[1]]
+    if t == "at":          # ["at", var, k]: variable at collocation time index k
+        return sym["__at__"](e[1], e[2])
+    if t == "ev":          # ["ev", name]: extra variable
+        return sym["__ev__"](e[1])
     if t == "+":
         return ast_casadi(e[1], sym) + ast_casadi(e[2], sym)
     if t == "-":
@@ -39,6 +43,10 @@ def ast_eval(e, env):
         return Fraction(e[1])
     if t == "v":
         return env[e[1]]
+    if t == "at":
+        return env[("at", e[1], e[2])]
+    if t == "ev":
+        return env[("ev", e[1])]
     if t == "+":
         return ast_eval(e[1], env) + ast_eval(e[2], env)
     if t == "-":
@@ -57,6 +65,10 @@ def ast_gallina(e, var_index):
         return "(EC %s)" % gq(Fraction(e[1]))
     if t == "v":
         return "(EV %d%%nat)" % var_index[e[1]]
+    if t == "at":
+        return "(EV %d%%nat)" % var_index[("at", e[1], e[2])]
+    if t == "ev":
+        return "(EV %d%%nat)" % var_index[("ev", e[1])]
     if t == "+":
         return "(EAdd %s %s)" % (ast_gallina(e[1], var_index), ast_gallina(e[2], var_index))
     if t == "-":
@@ -152,8 +164,8 @@ def make_base(spec, mixins=()):
         def times(self, variable=None):
             tv = self._spec.get("var_times", {})
             if variable is not None and variable in tv:
-                return np.array(tv[variable], dtype=float)
-            return np.array(self._spec["times"], dtype=float)
+                return np.array([fl(x) for x in tv[variable]])
+            return np.array([fl(x) for x in self._spec["times"]])
 
         @property
         def theta(self):
@@ -178,7 +190,7 @@ def make_base(spec, mixins=()):
             for k, v in self._spec.get("constant_input_values", [{}] * self.ensemble_size)[m].items():
                 ts = v["times"] if isinstance(v, dict) else self._spec["times"]
                 vals = v["values"] if isinstance(v, dict) else v
-                d[k] = Timeseries(np.array(ts, dtype=float), np.array([float(Fraction(x)) for x in vals]))
+                d[k] = Timeseries(np.array([fl(x) for x in ts]), np.array([fl(x) for x in vals]))
             return d
 
         def lookup_tables(self, m):
@@ -193,7 +205,7 @@ def make_base(spec, mixins=()):
         def history(self, m):
             d = AliasDict(self.alias_relation)
             for k, v in self._spec.get("history", [{}] * self.ensemble_size)[m].items():
-                d[k] = Timeseries(np.array(v["times"], dtype=float),
+                d[k] = Timeseries(np.array([fl(x) for x in v["times"]]),
                                   np.array([fl(x) for x in v["values"]]))
             return d
 
@@ -217,6 +229,57 @@ def make_base(spec, mixins=()):
 
         def delayed_feedback(self):
             return [tuple(x) for x in self._spec.get("delayed_feedback", [])]
+
+        # -- objective and constraints from ASTs ----------------------------------------------------
+        def _point_sym(self, m):
+            d = dict(self._sym)
+            tt = self.times()
+            d["__at__"] = lambda var, k: self.state_at(var, float(tt[k]), m)
+            d["__ev__"] = lambda name: self.extra_variable(name, m)
+            return d
+
+        def _path_sym(self):
+            out = {}
+            for n in list(self._sym):
+                if n.startswith("der("):
+                    out[n] = self.der(n[4:-1])
+                elif n == "time":
+                    out[n] = self._sym[n]
+                else:
+                    out[n] = self.state(n)
+            for a in self._spec.get("algebraics", []) + self._spec.get("controls", []):
+                out["der(%s)" % a] = self.der(a)
+            return out
+
+        def objective(self, m):
+            base_obj = super().objective(m)
+            o = self._spec.get("objective")      # one AST per ensemble member
+            if o is None:
+                return base_obj
+            return base_obj + ast_casadi(o[m], self._point_sym(m))
+
+        def path_objective(self, m):
+            base_obj = super().path_objective(m)
+            o = self._spec.get("path_objective")
+            if o is None:
+                return base_obj
+            return base_obj + ast_casadi(o, self._path_sym())
+
+        def constraints(self, m):
+            cons = super().constraints(m)
+            for e, lo, hi in self._spec.get("constraints", [[]] * self.ensemble_size)[m]:
+                cons.append((ast_casadi(e, self._point_sym(m)), fl(lo), fl(hi)))
+            return cons
+
+        def path_constraints(self, m):
+            cons = super().path_constraints(m)
+            pcs = self._spec.get("path_constraints", [])
+            for e, lo, hi in pcs:
+                # a bound given as {"per_member": [...]} differs per ensemble member
+                lo_m = lo["per_member"][m] if isinstance(lo, dict) and "per_member" in lo else lo
+                hi_m = hi["per_member"][m] if isinstance(hi, dict) and "per_member" in hi else hi
+                cons.append((ast_casadi(e, self._path_sym()), conv_bound(lo_m, Timeseries), conv_bound(hi_m, Timeseries)))
+            return cons
 
         def map_options(self):
             return {"mode": "unroll"}
@@ -243,7 +306,7 @@ def conv_bound(b, Timeseries):
     if b is None:
         return None
     if isinstance(b, dict):
-        return Timeseries(np.array(b["times"], dtype=float), np.array([fl(x) for x in b["values"]]))
+        return Timeseries(np.array([fl(x) for x in b["times"]]), np.array([fl(x) for x in b["values"]]))
     if isinstance(b, list):
         return np.array([fl(x) for x in b])
     return fl(b)
